@@ -9,7 +9,7 @@ VERIF = os.path.dirname(os.path.dirname(os.path.abspath(__file__)))
 # id -> (category, technique, level text, level note, design ref)
 CHECKS = {
     "C10": ("model_checking",
-            "TLC (Layout.tla) generates the layout vectors per file specification; each rendering is read by the real front end in-process and TLC (ConfFile.tla) compares the projected result with the abstract specification",
+            "TLC (Layout.tla) generates the layout vectors per file specification; each rendering is read by the real front end in-process and TLC (ConfFile.tla) compares the projected result with the abstract specification; three stage models bound by conformance on recorded data: Lexer.tla (characters -> tokens, hook VerifLex), FileParse.tla (tokens -> syntax tree), SymTab.tla (syntax tree -> symbols, codes, tags, precedence, rule precedence)",
             "Every uniform layout, every single-gap deviation x 9 trivia kinds and seeded pseudo-random vectors, for random file specifications with tags, explicit numbers, precedence lines, %prec, action bodies with nested braces/comments, alternatives with | and optional ';', tokens spelled like directive words.",
             "CR is not in the layout alphabet; '%}' is followed by a line break; braces inside action strings are balanced.", "5 C10"),
     "C11": ("model_checking",
